@@ -99,14 +99,29 @@ type Kaudit struct {
 	seq  int
 	base int64 // unix ms
 	n    int64
+	used map[int64]bool
 }
 
-func NewKaudit() *Kaudit { return &Kaudit{seq: 30000, base: 1668460000000} }
+func NewKaudit() *Kaudit { return &Kaudit{seq: 30000, base: 1668460000000, used: map[int64]bool{}} }
+
+// NewKauditAt starts the kernel clock at the given instant (the daemon's clock and the
+// kernel timestamps of a replayed backlog need not agree).
+func NewKauditAt(t time.Time) *Kaudit {
+	return &Kaudit{seq: 30000, base: t.UnixMilli(), used: map[int64]bool{}}
+}
+
+// StepBack moves the kernel clock backwards (NTP step): later events carry earlier
+// timestamps while sequence numbers keep increasing.
+func (k *Kaudit) StepBack(ms int64) { k.base -= ms }
 
 func (k *Kaudit) next() (int, time.Time, string) {
 	k.seq++
 	k.n++
 	ms := k.base + k.n*7
+	for k.used[ms] {
+		ms++ // every kernel event keeps a unique millisecond (the oracles key on it)
+	}
+	k.used[ms] = true
 	ts := time.UnixMilli(ms).UTC()
 	return k.seq, ts, fmt.Sprintf("%d.%03d", ms/1000, ms%1000)
 }
@@ -178,7 +193,12 @@ func (k *Kaudit) Exec(ses string, pid, uid int, argv []string, ok bool, withExec
 		var b strings.Builder
 		fmt.Fprintf(&b, "type=EXECVE %s argc=%d", hdr, len(argv))
 		for i, a := range argv {
-			fmt.Fprintf(&b, " a%d=\"%s\"", i, a)
+			if strings.ContainsAny(a, " \"'\t") {
+				// the kernel hex-encodes arguments with blanks or quotes
+				fmt.Fprintf(&b, " a%d=%s", i, strings.ToUpper(hex.EncodeToString([]byte(a))))
+			} else {
+				fmt.Fprintf(&b, " a%d=\"%s\"", i, a)
+			}
 		}
 		ls = append(ls, b.String())
 		ev.Args = argv
@@ -194,6 +214,19 @@ func (k *Kaudit) Exec(ses string, pid, uid int, argv []string, ok bool, withExec
 	ev.Lines = ls
 	ev.NRec = len(ls)
 	return ev
+}
+
+// AVC prints a compound SELinux denial: AVC + SYSCALL terminated by PROCTITLE.
+func (k *Kaudit) AVC(ses string, pid, uid int) *KEvent {
+	seq, ts, tss := k.next()
+	hdr := fmt.Sprintf("msg=audit(%s:%d):", tss, seq)
+	ls := []string{
+		fmt.Sprintf("type=AVC %s avc:  denied  { read } for  pid=%d comm=\"cat\" name=\"shadow\" dev=\"dm-0\" ino=1234 scontext=system_u:system_r:httpd_t:s0 tcontext=system_u:object_r:shadow_t:s0 tclass=file permissive=0", hdr, pid),
+		fmt.Sprintf("type=SYSCALL %s arch=c000003e syscall=257 success=no exit=-13 a0=ffffff9c a1=7ffd a2=0 a3=0 items=0 ppid=%d pid=%d auid=%d uid=%d gid=%d euid=%d suid=%d fsuid=%d egid=%d sgid=%d fsgid=%d tty=pts0%s comm=\"cat\" exe=\"/usr/bin/cat\" key=(null)",
+			hdr, pid-1, pid, uid, uid, uid, uid, uid, uid, uid, uid, uid, sesField(ses)),
+		fmt.Sprintf("type=PROCTITLE %s proctitle=636174002F6574632F736861646F77", hdr),
+	}
+	return &KEvent{Seq: seq, TS: ts, TSStr: tss, Type: "AVC", Ses: ses, PID: pid, Success: false, Lines: ls, NRec: len(ls)}
 }
 
 // Coalesce builds the *aucoalesce.Event the reassembler callback would hand to the
@@ -225,7 +258,8 @@ func (e *KEvent) Coalesce() (*aucoalesce.Event, error) {
 var users = []string{"alice", "bob", "carol", "dave", "erin", "frank", "root", "svc-x", "m.n", "ünï"}
 var ips = []string{"10.0.0.7", "192.168.1.20", "2001:db8::1", "fe80::1%eth0", "172.16.3.4", "host.example.org"}
 var algs = []string{"ED25519", "RSA", "ECDSA", "ED25519-SK"}
-var cmds = [][]string{{"ls", "-la"}, {"cat", "/etc/resolv.conf"}, {"id"}, {"sudo", "-i"}, {"rm", "-rf", "/tmp/x"}, {"vi", "notes.txt"}}
+var cmds = [][]string{{"ls", "-la"}, {"cat", "/etc/resolv.conf"}, {"id"}, {"sudo", "-i"}, {"rm", "-rf", "/tmp/x"}, {"vi", "notes.txt"},
+	{"grep", " 500 ", "access.log"}, {"sh", "-c", "echo \"done\" "}, {"touch", "\tfile with blanks "}}
 
 func b64ish(t *simrt.Tape, n int) string {
 	const cs = "ABCDEFGHIJKLMNOPQRSTUVWXYZabcdefghijklmnopqrstuvwxyz0123456789+/"
